@@ -127,14 +127,14 @@ mutual
     | .big t => t
     | .num t => t
     | .str s => senString s o.html
-    | .arr [] => [91, 93]
-    | .arr (x :: r) => 91 :: tightElems o x r
+    | .arr xs => 91 :: tightElems o xs
     | .obj kvs => 123 :: tightMembers o kvs true
   /-- the elements after `[`: a space after every scalar, nothing after a container, and `]` in place
   of the last space -/
-  def tightElems (o : WOpts) : JV → List JV → Bytes
-    | x, [] => tightVal o x ++ [93]
-    | x, y :: r => tightVal o x ++ (if needSep x then [32] else []) ++ tightElems o y r
+  def tightElems (o : WOpts) : List JV → Bytes
+    | [] => [93]
+    | [x] => tightVal o x ++ [93]
+    | x :: r => tightVal o x ++ (if needSep x then [32] else []) ++ tightElems o r
   /-- `key:value` pairs separated by one space, `}` at the end -/
   def tightMembers (o : WOpts) : List (Bytes × JV) → Bool → Bytes
     | [], _ => [125]
